@@ -1315,8 +1315,107 @@ def _check_cache_replication(ctx):
     ctx.count("PrecomputedCache.batchify (B, S) factorisations compared", 16)
 
 
+def _check_nar_history(ctx):
+    """non-autoregressive (heatmap) decoding over a HISTORY of calls whose (B, S) splits vary with B*S repeated:
+    (4,2) → (8,1) → (2,4) → (8,1) → …  Each decoded row is compared with (i) a from-scratch greedy walk over its OWN
+    instance's heatmap row, (ii) the solo decode of its instance with the same number of starts; the row→instance index the
+    real `_multistart_batched_index` returns at that point of the history is compared with the model (`narCachedIndex`)."""
+    import aug_zoo as zoo
+    from rl4co.envs import TSPEnv
+    from rl4co.models.common.constructive.nonautoregressive import decoder as nar_dec
+
+    n = 6
+    env = TSPEnv(generator_params=dict(num_loc=n))
+    torch.manual_seed(ctx.rng.randrange(1 << 30))
+    pol = zoo._nar("tsp").eval()
+    torch.manual_seed(ctx.rng.randrange(1 << 30))
+    pool = env.reset(env.generator(batch_size=[16]))
+    with torch.inference_mode():
+        heats = [pol.encoder(pool[k:k + 1])[0][0] for k in range(16)]
+
+    def reference(k, start):
+        heat = heats[k]
+        cur = int(heat.mean(-1).argmax()) if start is None else start
+        tour, seen = [cur], {cur}
+        while len(tour) < n:
+            row = heat[cur].clone()
+            row[list(seen)] = -float("inf")
+            cur = int(row.argmax())
+            tour.append(cur)
+            seen.add(cur)
+        return tour
+
+    def decode(td, S):
+        with ac.quiet(), torch.inference_mode():
+            if S <= 1:
+                return pol(td.clone(), env, phase="test", decode_type="greedy")["actions"].tolist()
+            return pol(td.clone(), env, phase="test", decode_type="multistart_greedy", num_starts=S)["actions"].tolist()
+
+    seq = [(4, 2), (8, 1), (2, 4), (8, 1), (2, 3), (3, 2), (6, 1), (1, 6), (4, 2)]
+    if ctx.rng.random() < 0.5:
+        seq = [(8, 1), (4, 2)] + seq
+    hist = []
+    for call_no, (B, S) in enumerate(seq):
+        off = ctx.rng.randrange(0, 16 - B + 1)
+        rows_idx = list(range(off, off + B))
+        witness = {"policy": "NonAutoregressivePolicy + NonAutoregressiveDecoder, hand-written pairwise-MLP heatmap encoder", "env": "tsp",
+                   "call_number": call_no + 1, "calls_so_far_(B,S)": hist + [(B, S)], "pool_rows": rows_idx}
+        ctx.case(("nar", call_no, B, S, off))
+        ctx.count(f"nar history call (B={B}, S={S})")
+        try:
+            got = decode(pool[rows_idx], S)
+        except Exception as e:
+            ctx.violation("nar-heatmap:crash_depends_on_call_history:tsp",
+                          f"NAR decoding of a batch (B={B}, S={S}) raises {type(e).__name__} after the calls {hist}: {str(e)[:100]}", witness)
+            hist.append((B, S))
+            continue
+        # the real index at this point of the history vs the model's cache
+        try:
+            real_idx = nar_dec._multistart_batched_index(B, S)
+            real_idx = real_idx.tolist()
+        except Exception:
+            real_idx = None
+        f = parse_fields(ctx.driver.ask("aug.narindex " + " ".join(f"{b} {s}" for b, s in hist + [(B, S)])))
+        if real_idx is not None and ac.parse_ints(f.get("cached", "")) != real_idx:
+            ctx.disagreement("aug: _multistart_batched_index differs from the model (narCachedIndex)", {"real": real_idx, "model": f, **witness})
+        hist.append((B, S))
+        bad = None
+        for r, row in enumerate(got):
+            s_, b = divmod(r, B)
+            ref = reference(rows_idx[b], None if S <= 1 else s_ % n)
+            if row[:n] != ref:
+                bad = (r, b, s_, row, ref)
+                break
+        if bad is not None:
+            r, b, s_, row, ref = bad
+            ctx.violation("nar-heatmap:row_not_decoded_from_own_heatmap:tsp",
+                          f"NAR greedy decoding, call {call_no + 1} (B={B}, S={S}) after {hist[:-1]}: decoded row {r} (instance {b}, start {s_}) is "
+                          f"{row} but greedy decoding of that instance's own heatmap gives {ref}",
+                          {"row": r, "instance_in_batch": b, "decoded": row, "own_heatmap_greedy": ref, **witness})
+            continue
+        # solo decode of one instance of the batch with the same number of starts
+        b = ctx.rng.randrange(B)
+        try:
+            solo = decode(pool[rows_idx[b]:rows_idx[b] + 1], S)
+            hist.append((1, S))
+            if [got[s_ * B + b] for s_ in range(max(S, 1))] != solo:
+                ctx.violation("nar-heatmap:actions_depend_on_batch:tsp",
+                              f"NAR decoding (B={B}, S={S}): instance {b} decoded alone gives other tours than in the batch",
+                              {"instance_in_batch": b, "solo": solo, "batch_rows": [got[s_ * B + b] for s_ in range(max(S, 1))], **witness})
+        except Exception as e:
+            ctx.violation("nar-heatmap:crash_depends_on_call_history:tsp",
+                          f"NAR decoding of ONE instance with S={S} raises {type(e).__name__} after the calls {hist}", witness)
+            hist.append((1, S))
+    ctx.sample({"case": "NAR heatmap decoding over a history of (B,S) calls", "calls": hist[:10], "n": n,
+                "last decoded row": got[-1] if isinstance(got, list) else None}, cap=3)
+
+
 def _run_zoo(ctx, names):
     import aug_zoo as zoo
+
+    if "nar-heatmap" in names:
+        for _ in range(ctx.budget(2, 8)):
+            _check_nar_history(ctx)
 
     # PRECISION PIN: RL4COTrainer sets torch.set_float32_matmul_precision("medium") process-wide; with reduced-precision
     # matmuls the rounding unit is ~2^-8 and near-ties flip with the evaluation chunk size (see the unit's assumptions)
@@ -1337,7 +1436,7 @@ def _run_zoo(ctx, names):
 
 GROUPS = {
     "aug_batch_am": ["am"],
-    "aug_batch_variants": ["am-instnorm-nographctx(pomo)", "am-layernorm", "symnco", "ham", "mdam", "polynet", "ptrnet", "mvmoe-am", "mvmoe-pomo"],
+    "aug_batch_variants": ["am-instnorm-nographctx(pomo)", "am-layernorm", "symnco", "ham", "mdam", "polynet", "ptrnet", "mvmoe-am", "mvmoe-pomo", "nar-heatmap"],
     "aug_batch_sched": ["matnet", "ffsp-multistage", "l2d", "l2d-attn", "nargnn"],
 }
 
@@ -1359,6 +1458,10 @@ C14_NOTE = ("the Lean theorems cover (a) the decoding LOOP and the REGROUPING (b
             "gap below ~1e-2 depending on the evaluation chunk size — inside the property's clause 'up to float rounding that does "
             "not flip a selection', documented here, not a violation.  The env-side idle-step law (hypothesis of batch_reward_eq_solo) is "
             "checked on every policy×env, RNG-consuming policies included, by replaying each batch row's actions on its instance alone.  "
+            "NON-AUTOREGRESSIVE policies: the bundled GNN encoders need torch_geometric (not installed); NonAutoregressivePolicy and its bundled "
+            "NonAutoregressiveDecoder are swept with a deterministic hand-written pairwise-MLP heatmap encoder on TSP, greedy and "
+            "multistart, over histories of calls whose (B, S) splits vary with B·S repeated, every decoded row compared with a from-scratch "
+            "greedy walk over its own instance's heatmap and with its solo decode.  "
             "No deterministic bundled policy supports FFSP (MatNetPolicy('ffsp') cannot be constructed, MultiStageFFSPPolicy draws random "
             "one-hot columns): FFSP is covered through MultiStageFFSPPolicy by that replay check only")
 C14_THEOREMS = [
@@ -1397,6 +1500,16 @@ if _exists(C14_LAYERS):
         Theorem("Rl4co.Eval.decoderReadsRowZero_not_rowLocal", "proved", "a decoder context that takes a state field from row 0 is not row-local"),
         Theorem("Rl4co.Eval.batch_dim_reductions_known", "proved", "obligation on the extracted scan: every reduction over dim 0 in the nn modules of the bundled policies is a known one (MVMoE gate)"),
         Theorem("Rl4co.Eval.forced_train_sites_known", "proved", "obligation: every site forcing training behaviour (dropout without training=, .train()) is a known, guarded one"),
+    ]
+C14_NAR = "Rl4co/Props/C14/AugNar.lean"
+if _exists(C14_NAR):
+    C14_MODULES.append("Rl4co.Props.C14.AugNar")
+    C14_THEOREMS += [
+        Theorem("Rl4co.Eval.narIndex_getElem?", "proved", "NAR decoder: _multistart_batched_index(B, S)[r] = r mod B for every B, S (the row→instance map of batch_eq_map_solo / C12)"),
+        Theorem("Rl4co.Eval.narLogitsRow_own_instance", "proved", "heatmap_to_logits scores decoded row r against the heatmap of instance r mod B"),
+        Theorem("Rl4co.Eval.narCachedIndex_eq", "proved", "with the memoisation keyed by (batch_size, num_starts) (extracted) the cached index equals the fresh one after EVERY history of calls"),
+        Theorem("Rl4co.Eval.narCachedIndex_rowsKey_counterexample", "proved", "keyed by the number of decoded rows only, (4,2) then (8,1) hands rows 4..7 the heatmaps of instances 0..3"),
+        Theorem("Rl4co.Eval.decode_caches_known", "proved", "obligation on the extracted scan: every memoised function / module-level dict cache in the decoding path is a known one"),
     ]
 if _exists(C14_CACHE):
     C14_MODULES.append("Rl4co.Props.C14.AugCache")
